@@ -12,6 +12,8 @@ pub fn instances(tier: &str) -> Vec<String> {
     for nx in 1..=n2 { for ny in 1..=n2 { for k in 1..=nv { v.push(format!("store2d:nx={},ny={},nv={}", nx, ny, k)); } } }
     for nn in 2..=n1 { v.push(format!("quad1d:nn={}", nn)); for c in 0..nn - 1 { v.push(format!("interp_cell:nn={},cell={}", nn, c)); } for k in 0..nn { v.push(format!("interp_node:nn={},node={}", nn, k)); } }
     for nx in 2..=n2 { for ny in 2..=n2 { v.push(format!("quad2d:nx={},ny={}", nx, ny)); } }
+    // the statement's own f64 domain (dyadic grid, integer data, "so f64 results are exact"): the very same doubles
+    for nn in 2..=(if tier == "thorough" { 4 } else { 3 }) { v.push(format!("fp_interp:nn={}", nn)); }
     v
 }
 
@@ -145,6 +147,39 @@ pub fn body(inst: &str) {
                 });
             }
             control("interp control", eq(xp, xp + Sym::lit(1.0)));
+        }
+        "fp_interp" => {
+            // FP64 clause, on the quantifier's own domain: nodes are multiples of 2^-10 in [-64, 64] at least 1e-3 apart, nodal data
+            // are integers up to 1024 in size.  There every nodal value and every mid-cell value of the interpolant is a double, so
+            // the result at a node must be that double: identical term, else a QF_FP query (cvc5) whose model is replayed on the doubles.
+            // "is an integer" is written with the rounding trick (v + 1.5*2^52) - 1.5*2^52 == v, exact for |v| < 2^51.
+            let nn = geti(&p, "nn");
+            let nv = 1;
+            let xs = nodes("x", nn);
+            let data = var_grid("d", nn, nv);
+            let big = Sym::lit(6755399441055744.0);
+            let is_int = |v: Sym| eq((v + big) - big, v);
+            let mut dom: Vec<B> = Vec::new();
+            for k in 0..nn {
+                dom.push(le(xs[k].abs(), Sym::lit(64.0)));
+                dom.push(is_int(xs[k] * Sym::lit(1024.0)));
+                if k + 1 < nn { dom.push(le(xs[k] + Sym::lit(1.0e-3), xs[k + 1])); }
+                for v in 0..nv { dom.push(le(data[k][v].abs(), Sym::lit(1024.0))); dom.push(is_int(data[k][v])); }
+            }
+            let mut m = Mesh1D::<Sym, Sym>::new(vv(&xs), nv);
+            for k in 0..nn { m.set_nodes_vars(k, vv(&data[k])); }
+            let group = "f64 interpolation on a dyadic grid with integer data returns the exact double";
+            for k in 0..nn {
+                must("get_interpolated_vars at a node", || m.get_interpolated_vars(xs[k]), |r| {
+                    if check_that(r.size() == nv, || "interpolated vector has nvars entries".into()) { for v in 0..nv {
+                        if r[v].same(data[k][v]) { count_case(); check_that(true, || String::new()); }
+                        else { prove_fp(&format!("{} :: at node {} of {} (var {})", group, k, nn, v), &dom, eq(r[v], data[k][v])); }
+                    } }
+                });
+            }
+            // (the mid-cell values are doubles too, and the pre-repair formula missed them as well - cvc5 gave models in seconds -
+            // but for the repaired formula the bit-level proof that (m - x0)/(x1 - x0) is exactly 1/2 does not finish; not claimed)
+            control("fp_interp control", eq(xs[0], xs[0] + Sym::lit(1.0)));
         }
         "quad1d" => {
             let nn = geti(&p, "nn");
